@@ -12,6 +12,8 @@ CORE_T = ["-n", "1500", "-ops", "90", "-thorough"]
 def core_stream(extra_q=None, extra_t=None):
     return dict(name="core", quick=CORE_Q + (extra_q or []), thorough=CORE_T + (extra_t or []), shards_quick=4, shards_thorough=14)
 
+CONC_FOR_CORE = dict(name="conc", quick=["-n", "250"], thorough=["-n", "3000", "-thorough"], shards_quick=4, shards_thorough=14)
+
 PROPS = {}
 
 PROPS["C19"] = dict(
@@ -52,8 +54,10 @@ _core_prop("C01", "Replicas that merged the same entries converge (join is a CRD
 _core_prop("C02", "Heads are exactly the entries nothing else in the log points to",
     r"(join|append|setid|exchange|init)/(heads|rawheads|snapshot\.heads|json\.heads)",
     "Lean 4: heads clause of the replica invariant preserved by append and by the three head filters of Join (join_heads_spec), for all reachable states",
-    "Kernel-checked: in every reachable state h is a head iff it is an entry no entry names (heads_spec), heads are non-empty for a non-empty log, a duplicate-free subset of the entries; Heads() is the same set. Correspondence: Heads(), RawHeads(), ToSnapshot().Heads, ToJSONLog().Heads of the real log compared with the model after every operation, and the decidable predicate headsOk evaluated on the implementation's own state.",
-    CORE_NOTE)
+    "Kernel-checked: in every reachable state h is a head iff it is an entry no entry names (heads_spec), heads are non-empty for a non-empty log, a duplicate-free subset of the entries; Heads() is the same set. Correspondence: Heads(), RawHeads(), ToSnapshot().Heads, ToJSONLog().Heads of the real log compared with the model after every operation, and the decidable predicate headsOk evaluated on the implementation's own state; the conc stream adds the heads every reader observes and the final heads of every log under controlled interleavings of appends, merges and readers, and a free-running stress (appends, merges both ways, identity changes, all readers, under the race detector) checks on every snapshot and on the final states that the heads are exactly the unreferenced values and that every entry is a value.",
+    CORE_NOTE, extra_streams=[CONC_FOR_CORE])
+PROPS["C02"]["race_stress"] = dict(stream="conc-stress", ms_quick=4000, ms_thorough=60000)
+PROPS["C02"]["diff_fields_by_stream"] = {"core": PROPS["C02"]["diff_fields"], "conc": r"(final\.heads.*|read\.(heads|rawheads|json|snapshot\.heads).*)"}
 _core_prop("C03", "Values() is a complete, duplicate-free, causally ordered linearisation",
     r"(join|append|setid|exchange|init)/(values|snapshot\.values)",
     "Lean 4: worklist invariant of traverse (traverse_spec), every entry lies below a head, uniqueness of the sorted permutation",
@@ -67,8 +71,9 @@ _core_prop("C04", "Every appended entry dominates the log it was appended to",
 _core_prop("C05", "The log is append-only: entries never change or vanish",
     r"(join|append|setid|exchange|load:.*|iter)/(entries|len|values|snapshot\.values|has|get)",
     "Lean 4: monotonicity of every step of the system model (step_mono), sorted-sublist lemma (values_sublist); known finding lww-tie-order proved as a concrete counterexample",
-    "Kernel-checked: every operation keeps every entry of every replica retrievable by hash with identical content, never decreases the count, changes only the target replica, and the new Values() contains the old one as a subsequence whenever the ordering is a strict total order on the new entries (values_subsequence_partial). Without that premise the claim is FALSE for the default ordering (two entries of one writer with equal clock time): proved by a concrete model counterexample and reproduced on the implementation — recorded as known finding lww-tie-order. Pointer aliasing between instances cannot occur in the model (immutable values); entry immutability is checked by the harness on hashes.",
-    CORE_NOTE)
+    "Kernel-checked: every operation keeps every entry of every replica retrievable by hash with identical content, never decreases the count, changes only the target replica, and the new Values() contains the old one as a subsequence whenever the ordering is a strict total order on the new entries (values_subsequence_partial). Without that premise the claim is FALSE for the default ordering (two entries of one writer with equal clock time): proved by a concrete model counterexample and reproduced on the implementation — recorded as known finding lww-tie-order. Pointer aliasing between instances cannot occur in the model (immutable values); entry immutability is checked by the harness on hashes. The conc stream adds the final entries and values of every log after controlled interleavings (three logs merging each other while being appended to).",
+    CORE_NOTE, extra_streams=[CONC_FOR_CORE])
+PROPS["C05"]["diff_fields_by_stream"] = {"core": PROPS["C05"]["diff_fields"], "conc": r"(final\.(entries|values).*|read\.(entries|values|len).*)"}
 _core_prop("C15", "Iteration returns the requested causal range, newest first, and always ends",
     r"iter/.*",
     "Lean 4: relaxed worklist invariant for traversal from arbitrary roots (traverse_general, end hash, amount) and the range theorems of Iterator; traversal-free specification iterSpec evaluated on every implementation call",
